@@ -563,7 +563,7 @@ func newEnv(kind string) *env {
 		m := hooks.NewMemory()
 		return &env{st: content.LimitStorage(m, atoi(kind[3:])), mem: m, listing: func() []string { return memListing(m) },
 			ingest: func() int { return -1 }, close: func() {}}
-	case kind == "oci":
+	case kind == "oci" || strings.HasPrefix(kind, "olim"):
 		root, err := os.MkdirTemp("", "c05oci")
 		if err != nil {
 			panic(err)
@@ -572,7 +572,11 @@ func newEnv(kind string) *env {
 		if err != nil {
 			panic(err)
 		}
-		return &env{st: s,
+		var st content.Storage = s
+		if strings.HasPrefix(kind, "olim") {
+			st = content.LimitStorage(s, atoi(kind[4:]))
+		}
+		return &env{st: st,
 			listing: func() []string {
 				var out []string
 				walkFiles(filepath.Join(root, "blobs"), func(rel string, data []byte) {
@@ -725,7 +729,7 @@ func runST(id string, c *Case) string {
 		}
 	}
 	final := "B=" + joinListing(e.listing())
-	if c.Kind == "oci" {
+	if c.Kind == "oci" || strings.HasPrefix(c.Kind, "olim") {
 		final += fmt.Sprintf(" I=%d", e.ingest())
 	}
 	// every stored blob of a digest-addressed store hashes to its name
@@ -911,6 +915,9 @@ func runCase(c *Case) {
 		k := c.Kind
 		if strings.HasPrefix(k, "lim") {
 			k = "lim"
+		}
+		if strings.HasPrefix(k, "olim") {
+			k = "olim"
 		}
 		run.Count("store:" + k)
 	}
@@ -1119,7 +1126,7 @@ func genHistory(r *common.Rand, kind string) *Case {
 		}
 		c.Pushes = append(c.Pushes, p)
 	}
-	if kind == "lim" {
+	if kind == "lim" || kind == "olim" {
 		lim := int64(len(data)) + int64(r.Intn(5)) - 2
 		if r.Chance(1, 3) {
 			lim = 1 << 20
@@ -1127,7 +1134,7 @@ func genHistory(r *common.Rand, kind string) *Case {
 		if lim < 0 {
 			lim = 0
 		}
-		c.Kind = fmt.Sprintf("lim%d", lim)
+		c.Kind = fmt.Sprintf("%s%d", kind, lim)
 	}
 	return c
 }
@@ -1247,7 +1254,7 @@ func exhaustive(maxLen int) {
 func main() {
 	run = common.Start("C05")
 	defer run.Finish()
-	run.Rule = "scripted readers (random chunking, 0-byte reads, injected error at any offset, data+EOF in one call) x descriptors (right / wrong digest, size -2..+2, 0, negative, 14 malformed or unsupported digest forms, sha256/384/512) on ReadAll, VerifyReader, CopyBuffer and push histories of 1-3 pushes on memory, limited, OCI and file stores; exhaustive chunkings of short strings; concurrent good/bad pushes of one digest; caching proxy; distinct = distinct case text; non-trivial = an error outcome, a history of several pushes or a multi-event reader"
+	run.Rule = "scripted readers (random chunking, 0-byte reads, injected error at any offset, data+EOF in one call) x descriptors (right / wrong digest, size -2..+2, 0, negative, 14 malformed or unsupported digest forms, sha256/384/512) on ReadAll, VerifyReader, CopyBuffer and push histories of 1-3 pushes on memory, limited (memory and OCI) , OCI and file stores; exhaustive chunkings of short strings; concurrent good/bad pushes of one digest; caching proxy; distinct = distinct case text; non-trivial = an error outcome, a history of several pushes or a multi-event reader"
 
 	if run.Replay != "" {
 		for _, c := range common.ReadReplay(run.Replay) {
@@ -1258,8 +1265,8 @@ func main() {
 		return
 	}
 	r := run.Rand
-	exhaustive(run.Scale(4, 7))
-	n := run.Scale(8000, 120000)
+	exhaustive(run.Scale(4, 8))
+	n := run.Scale(8000, 300000)
 	for i := 0; i < n; i++ {
 		switch k := r.Intn(20); {
 		case k < 3:
@@ -1272,8 +1279,10 @@ func main() {
 			runCase(genHistory(r, "mem"))
 		case k < 13:
 			runCase(genHistory(r, "lim"))
-		case k < 17:
+		case k < 16:
 			runCase(genHistory(r, "oci"))
+		case k < 17:
+			runCase(genHistory(r, "olim"))
 		default:
 			runCase(genHistory(r, "file"))
 		}
@@ -1281,10 +1290,10 @@ func main() {
 	for i := 0; i < run.Scale(10, 100); i++ {
 		runCase(genBig(r, common.Pick(r, []string{"oci", "file", "mem"})))
 	}
-	for i := 0; i < run.Scale(400, 8000); i++ {
+	for i := 0; i < run.Scale(400, 20000); i++ {
 		runCase(genConcurrent(r, common.Pick(r, []string{"oci", "oci", "mem", "lim1000000"})))
 	}
-	for i := 0; i < run.Scale(300, 6000); i++ {
+	for i := 0; i < run.Scale(300, 15000); i++ {
 		p := genPush(r, genData(r))
 		kind := "mem"
 		if r.Chance(1, 3) {
